@@ -189,6 +189,219 @@ def grn2(ctx: Ctx) -> None:
         ctx.R.ok("GRN-2", "greenlet_getcurrent is greenlet.getcurrent; the placeholder exists only when greenlet cannot be imported")
 
 
+def grn3(ctx: Ctx) -> None:
+    """GRN-3 the await_ bridge: greenback.await_'s frame continues into its `coro` local exactly when it is the innermost frame
+    or is suspended in greenlet.switch(); an await_ with other frames inward of it (the coroutine is running on this very stack:
+    extraction from inside, or an outer bridge of a deeper alternation seen from outside) needs nothing -- following `coro` there
+    asks for the frames of a coroutine that is "running" on a suspended greenlet, which no thread's stack contains, and the
+    stack is cut with an error at the second alternation.  Decided by evaluating the hook (engine MINI) on the four cases"""
+    from types import SimpleNamespace as NS
+    from ..minieval import Mini, Raised, Unsupported, _Return
+    mod = ctx.P.mod("_glue")
+    q = "glue_greenback.elaborate_greenback_await"
+    if not mod.has(q):
+        cands = [k for k, f in mod.defs.items() if k.startswith("glue_greenback.") and isinstance(f, ast.FunctionDef)
+                 and any(isinstance(d, ast.Call) and "elaborate_frame.register" in norm(d.func) and any("await_" in norm(a) for a in d.args) for d in f.decorator_list)]
+        if len(cands) != 1:
+            raise AnalysisError("anchor vanished: the elaborate_frame hook registered for greenback.await_")
+        q = cands[0]
+    fn = mod.fn(q)
+    ctx.R.saw(mod, q)
+    if len(fn.args.args) != 2:
+        ctx.R.undecided("GRN-3", "the await_ hook does not take (frame, next_inner)")
+        return
+    pf, pn = (a.arg for a in fn.args.args)
+    FrameT = NS(tname="Frame")
+
+    def isinst(o_, c_):
+        if c_ is not FrameT:
+            raise Unsupported("isinstance against another class")
+        return isinstance(o_, NS) and getattr(o_, "is_frame", False)
+    helpers = {k.split(".")[-1]: f for k, f in mod.defs.items() if isinstance(f, ast.FunctionDef) and k.count(".") <= 1 and f is not fn}
+    CORO = NS(tag="coro")
+
+    def mkframe(name):
+        return NS(is_frame=True, pyframe=NS(f_code=NS(co_name=name, co_filename="x.py"), f_locals={}), hide=False)
+    cases = [("the innermost frame (next_inner None)", None, CORO), ("suspended in greenlet.switch()", mkframe("switch"), CORO), ("followed by another frame (the awaited coroutine is running further in)", mkframe("send"), None)]
+    n_ok = 0
+    for label, nxt, want in cases:
+        frame = NS(is_frame=True, pyframe=NS(f_code=NS(co_name="await_"), f_locals={"coro": CORO}), hide=False, hide_line=False)
+        m = Mini({pf: frame, pn: nxt, "Frame": FrameT}, dict(helpers), {"isinstance": isinst})
+        res = None
+        try:
+            try:
+                for st in fn.body:
+                    m.stmt(st)
+            except _Return as r:
+                res = r.value
+        except (Unsupported, Raised) as ex:
+            ctx.R.undecided("GRN-3", f"{label}: {ex}")
+            return
+        except Exception as ex:
+            ctx.R.undecided("GRN-3", f"{label}: {type(ex).__name__}")
+            return
+        if res is not want:
+            got = "its `coro` local" if res is CORO else "None" if res is None else "something else"
+            ctx.R.fail("GRN-3", mod, fn, f"greenback.await_ frame that is {label}: the hook returns {got}, {'its `coro` local' if want is CORO else 'None'} is required.  "
+                       + ("An await_ with frames inward of it must leave the walk alone: `coro` is then running on a (possibly suspended) greenlet's stack, no thread has its frames, and from the second "
+                          "sync/async alternation on the stack is cut with `Couldn't find where the above frame is running`" if want is None else
+                          "Without it the stack stops at the bridge instead of continuing into the awaited coroutine"), construct=f"await_ bridge: {label}")
+            return
+        n_ok += 1
+    ctx.R.ok("GRN-3", f"_glue.{q} evaluated on {n_ok} positions of the await_ frame", "continues into `coro` iff innermost or suspended in switch()")
+
+
+def grn4(ctx: Ctx) -> None:
+    """GRN-4 the other two greenback bridges, and the hiding of all three.  The shim / trampoline frame with further frames inward
+    of it needs nothing (None); as the innermost frame, the shim continues into the child greenlet when that is suspended
+    (gr_frame not None) and otherwise into `orig_coro`; the trampoline continues into `orig_coro`.  Every one of the hooks
+    marks its frame hidden in every case ("with the bridging internals hidden").  Decided by evaluating the hooks (engine MINI)"""
+    from types import SimpleNamespace as NS
+    from ..minieval import Mini, Raised, Unsupported, _Return
+    mod = ctx.P.mod("_glue")
+    FrameT = NS(tname="Frame")
+
+    def isinst(o_, c_):
+        if c_ is not FrameT:
+            raise Unsupported("isinstance against another class")
+        return isinstance(o_, NS) and getattr(o_, "is_frame", False)
+
+    def gattr(o_, n_, *d_):
+        if not isinstance(o_, NS) and o_ is not None:
+            raise Unsupported("getattr on an unknown object")
+        if o_ is not None and hasattr(o_, n_):
+            return getattr(o_, n_)
+        if d_:
+            return d_[0]
+        raise Raised("AttributeError")
+    hooks = {}
+    for k, f in mod.defs.items():
+        if k.startswith("glue_greenback.") and isinstance(f, ast.FunctionDef):
+            for d in f.decorator_list:
+                if isinstance(d, ast.Call) and norm(d.func) == "elaborate_frame.register" and d.args:
+                    t = norm(d.args[0])
+                    kind = "await_" if t.endswith(".await_") else "shim" if t.endswith("_greenback_shim") else "trampoline" if t.endswith(".trampoline") else None
+                    if kind:
+                        hooks[kind] = (k, f)
+    if "shim" not in hooks or "await_" not in hooks:
+        raise AnalysisError(f"GRN-4: elaborate_frame hooks for the greenback shim / await_ not found (have {sorted(hooks)})")
+    GL, GL0 = NS(tag="child greenlet", gr_frame=NS(tag="gr_frame"), truthy=True), NS(tag="child greenlet without frame", gr_frame=None, truthy=True)
+    OC, CORO = NS(tag="orig_coro", truthy=True), NS(tag="coro", truthy=True)     # coroutine objects are always true; a live greenlet is true
+    inner = lambda: NS(is_frame=True, pyframe=NS(f_code=NS(co_name="send")), hide=False)
+    cases = {
+        "shim": [("with further frames inward", {"child_greenlet": GL, "orig_coro": OC}, "F", None, "None"),
+                 ("innermost, child greenlet suspended", {"child_greenlet": GL, "orig_coro": OC}, None, GL, "the child greenlet"),
+                 ("innermost, child greenlet has no frame", {"child_greenlet": GL0, "orig_coro": OC}, None, OC, "`orig_coro`")],
+        "trampoline": [("with further frames inward", {"orig_coro": OC}, "F", None, "None"), ("innermost", {"orig_coro": OC}, None, OC, "`orig_coro`")],
+        "await_": [("with further frames inward", {"coro": CORO}, "F", None, "None"), ("innermost", {"coro": CORO}, None, CORO, "`coro`")],
+    }
+    n_ok = 0
+    for kind, (q, fn) in sorted(hooks.items()):
+        ctx.R.saw(mod, q)
+        if len(fn.args.args) != 2:
+            ctx.R.undecided("GRN-4", f"{q} does not take (frame, next_inner)")
+            continue
+        pf, pn = (a.arg for a in fn.args.args)
+        for label, locs, nxt, want, wtxt in cases[kind]:
+            frame = NS(is_frame=True, pyframe=NS(f_code=NS(co_name=kind), f_locals=dict(locs)), hide=False, hide_line=False)
+            m = Mini({pf: frame, pn: inner() if nxt == "F" else None, "Frame": FrameT}, {}, {"isinstance": isinst, "getattr": gattr})
+            res = None
+            try:
+                try:
+                    for st in fn.body:
+                        m.stmt(st)
+                except _Return as r:
+                    res = r.value
+            except Raised as ex:
+                ctx.R.fail("GRN-4", mod, fn, f"greenback {kind} frame {label}: the hook raises {ex} where {wtxt} is required (the stack is cut at the bridge)", construct=f"greenback {kind}: {label}")
+                break
+            except Unsupported as ex:
+                ctx.R.undecided("GRN-4", f"{q}, {label}: {ex}")
+                break
+            except Exception as ex:
+                ctx.R.undecided("GRN-4", f"{q}, {label}: {type(ex).__name__}")
+                break
+            if res is not want:
+                got = getattr(res, "tag", None) or ("None" if res is None else "something else")
+                ctx.R.fail("GRN-4", mod, fn, f"greenback {kind} frame {label}: the hook returns {got}, {wtxt} is required: the stack of the task "
+                           + ("is redirected although the frames inward of the bridge are already being walked (duplicated or lost frames)" if want is None else "does not continue into what the bridge is waiting for"),
+                           construct=f"greenback {kind}: {label}")
+                break
+            if frame.hide is not True:
+                ctx.R.fail("GRN-4", mod, fn, f"greenback {kind} frame {label}: the hook leaves frame.hide == {frame.hide!r}: the bridging internals show up in the formatted stack", construct=f"greenback {kind} not hidden: {label}")
+                break
+            n_ok += 1
+    ctx.R.ok("GRN-4", f"greenback hooks {sorted(hooks)} evaluated on {n_ok} cases", "None with frames inward; the child greenlet / orig_coro / coro when innermost; always hidden")
+
+
+# the frames the greenlet / greenback bridges produce that the package hides today (confirmed by reading _glue.py at the pinned
+# commit): the reference for GRN-5.  path below the imported module -> options
+_HIDDEN_BRIDGE_FRAMES = {
+    "glue_outcome": {"outcome.Value.send": {"hide": True}, "outcome.Error.send": {"hide": True}, "outcome.capture": {"hide": True}, "outcome.acapture": {"hide": True}},
+    "glue_greenlet": {"greenlet.greenlet.switch": {"hide": True}},
+}
+
+
+def grn5(ctx: Ctx) -> None:
+    """GRN-5 "with the bridging internals hidden": the functions that resume the other side of a bridge -- outcome's Value.send
+    *and* Error.send (a bridge resumed by an exception thrown in goes through Error.send), outcome.capture / acapture, and
+    greenlet.switch -- are customised with hide=True.  The glue functions are evaluated (engine MINI; module objects are
+    symbolic attribute paths) and the set of (target, options) they pass to customize() must contain the reference set"""
+    from types import SimpleNamespace
+    from ..minieval import Mini, Raised, Unsupported
+
+    class Path(SimpleNamespace):
+        def __init__(self, path: str) -> None:
+            super().__init__()
+            object.__setattr__(self, "_p", path)
+
+        def __getattr__(self, name: str):
+            if name.startswith("__") and name.endswith("__") and name not in ("__call__",):
+                raise AttributeError(name)
+            child = Path(f"{self._p}.{name}")
+            object.__setattr__(self, name, child)
+            return child
+    mod = ctx.P.mod("_glue")
+    for q, want in _HIDDEN_BRIDGE_FRAMES.items():
+        if not mod.has(q):
+            ctx.R.undecided("GRN-5", f"_glue.{q} is not defined any more")
+            continue
+        fn = mod.fn(q)
+        ctx.R.saw(mod, q)
+        seen: Dict[str, Dict[str, object]] = {}
+        complete = True
+
+        def customize(target=None, *a, **kw):
+            if isinstance(target, Path):
+                seen.setdefault(target._p, {}).update(kw)
+            return None
+        env: Dict[str, object] = {"sys": SimpleNamespace(implementation=SimpleNamespace(name="cpython"), version_info=(3, 12, 1, "final", 0))}
+        m = Mini(env, {}, {"customize": customize, "hasattr": lambda o_, n_: isinstance(o_, Path)})
+        for st in fn.body:
+            if isinstance(st, ast.Import):
+                for a_ in st.names:
+                    m.env[(a_.asname or a_.name).split(".")[0]] = Path(a_.name.split(".")[0]) if not a_.asname else Path(a_.name)
+                continue
+            if isinstance(st, (ast.FunctionDef, ast.AsyncFunctionDef, ast.ClassDef)) or (isinstance(st, ast.Expr) and isinstance(st.value, ast.Constant)):
+                continue
+            if not any(isinstance(c_, ast.Call) and isinstance(c_.func, ast.Name) and c_.func.id == "customize" for c_ in ast.walk(st)):
+                continue
+            try:
+                m.stmt(st)
+            except (Unsupported, Raised):
+                complete = False
+            except Exception:
+                complete = False
+        missing = [t for t, kw in want.items() if not all(seen.get(t, {}).get(k_) == v_ for k_, v_ in kw.items())]
+        if not missing:
+            ctx.R.ok("GRN-5", f"_glue.{q}: customize() evaluated: {sorted(seen)}", f"contains {sorted(want)} with hide=True")
+        elif not complete:
+            ctx.R.undecided("GRN-5", f"_glue.{q}: some customize() statements are outside the evaluator's fragment and {missing} were not seen")
+        else:
+            ctx.R.fail("GRN-5", mod, fn, f"{q} no longer hides {missing} (it customises {sorted(seen)}): the frame of that function shows up between the synchronous caller and the coroutine / greenlet it resumes "
+                       "-- for outcome.Error.send only when a bridge was last resumed by an exception thrown in (a cancelled task that catches the cancellation)", construct=f"{q}: {missing[0]} not hidden")
+
+
 def eng6(ctx: Ctx) -> None:
     """ENG-6 with_contexts only decides whether contexts are filled in: the block of extract_iter that is conditional on it
     neither leaves the loop iteration (continue / break / return / yield) nor touches the two work queues, so the frames
@@ -420,4 +633,4 @@ def loc1(ctx: Ctx) -> None:
 
 
 C14 = [trio1, trio2, trio3, loc1]
-C15 = [grn1, grn2, loc1]
+C15 = [grn1, grn2, grn3, grn4, grn5, loc1]
